@@ -261,3 +261,34 @@ func (y *yieldStore) GetAccountNodes(a store.Account) ([]store.NodeID, error) {
 }
 func (y *yieldStore) Stats() (*store.Stats, error) { y.sc.yield("Stats"); return y.inner.Stats() }
 func (y *yieldStore) Close() error                 { return y.inner.Close() }
+
+// bubbleLeftovers returns the stacks of the goroutines of the calling
+// goroutine's synctest bubble (other than the caller) that are still alive.
+// Call it after closing everything: whatever is left is a leaked or wedged
+// goroutine (a bubble cannot end while one exists).
+func bubbleLeftovers() []string {
+	self := goid()
+	tag := myBubble()
+	buf := make([]byte, 1<<20)
+	n := runtime.Stack(buf, true)
+	for n == len(buf) {
+		buf = make([]byte, 2*len(buf))
+		n = runtime.Stack(buf, true)
+	}
+	var out []string
+	for _, block := range bytes.Split(buf[:n], []byte("\n\n")) {
+		m := goroutineHdr.FindSubmatch(block)
+		if m == nil {
+			continue
+		}
+		id, _ := strconv.ParseInt(string(m[1]), 10, 64)
+		if id == self || tag == "" || bubbleTag(string(m[2])) != tag {
+			continue
+		}
+		if bytes.Contains(block, []byte("internal/synctest.Run(")) || bytes.Contains(block, []byte("synctest.testingSynctestTest(")) {
+			continue // the bubble's own plumbing
+		}
+		out = append(out, string(block))
+	}
+	return out
+}
